@@ -4,7 +4,7 @@ import elab_cluster as E
 import gen_checker as G
 
 PROP = "C19"
-CONE = sorted(set(K.MODEL_FILES + E.MODEL_FILES + ["Gen/Generated.v"] + ['Proofs/ElabProofs.v', 'Proofs/CheckerFrame.v', 'Props/C19.v']))
+CONE = sorted(set(K.MODEL_FILES + E.MODEL_FILES + ["Gen/Generated.v"] + ['Proofs/ElabProofs.v', 'Proofs/CheckerFrame.v', 'Proofs/CheckerProps.v', 'Proofs/CheckerAfter.v', 'Props/C19.v']))
 RULE_E = 'histories of 2-6 definitions: module-level functions with stacks of 0-4 decorators (require / ensure / snapshot, enabled or not, foreign functools.wraps decorators, invalid decorators), classes on DBC or not with single or multiple bases, members f/g/p/__init__/__new__/__setattr__/_priv/__repr__ of kinds method, static, class method, property get/set/del, class invariants with check_on CALL/SETATTR/ALL; after each step every earlier function and class is viewed through find_checker and the list attributes (contents and identity of the invariant lists); seeded. distinct = distinct final views.'
 RULE_C = ('checker-cluster cases as for C01 (all callable kinds x sync/async, chains of 1-3 classes, faults) in which 45% of '
           'the signatures carry a parameter named result / OLD (positional-only, positional-or-keyword or keyword-only; passed '
